@@ -355,6 +355,32 @@ PROPS["C16"] = {
     "assumptions": ["hooks (build tag verif): Evaluator.VerifGlobals, VM.VerifGlobals(Compiler), read-only"],
 }
 
+PROPS["C17"] = {
+    "pkg": "p17",
+    "level": "exploration",
+    "level_text": "Every bytecode program compiled from ~2*10^4 (quick) / ~5*10^5 (thorough) generated programs is verified by an "
+                  "independent bytecode verifier written for the harness: linear decode into known instructions ending exactly at the "
+                  "end, constant/global/local operands in range and every constant referenced, jump targets on instruction boundaries, "
+                  "and abstract interpretation of the operand-stack height over the control-flow graph (one height per instruction on all "
+                  "paths, never negative, zero at exit, within StackSize). The program is then executed inside recover (no Go panic; "
+                  "stack pointer back at LocalCount). Six oversized programs (more than 65536 constants, loop bodies beyond 65535 bytes, "
+                  "huge literals) are compiled, and a model-based state machine over SymbolTable Push/Pop/Define/Resolve checks that "
+                  "live symbols never share a slot, Resolve finds the innermost definition and enough local slots are reserved.",
+    "level_note": "Stack effects per opcode are taken from the opcode descriptions (harness/p17 effects table), not from vm.go. The range "
+                  "opcodes are modelled together with the conditional jump that must follow them. Loop variables that shadow an outer "
+                  "variable are excluded while finding F37 (C16) is open.",
+    "technique": "property-based testing with an independent bytecode verifier (abstract stack-height interpretation) + model-based symbol table state machine (rapid)",
+    "tests": [
+        {"name": "TestProp", "quick": {"shards": 8, "checks": 2500}, "thorough": {"shards": 16, "checks": 30000}},
+        {"name": "TestLarge", "rapid": False, "quick": {"shards": 1}, "thorough": {"shards": 1}},
+        {"name": "TestSymbolTable", "quick": {"shards": 4, "checks": 5000}, "thorough": {"shards": 8, "checks": 50000}},
+    ],
+    "rule": "cases: generated programs of the compiler's subset (block depth up to 4, risky indices), oversized programs, symbol-table "
+            "histories of 1-40 operations. Non-trivial = verified program with nested loops or a break; oversized program beyond the "
+            "16-bit limit; history with >= 2 simultaneously live locals. Distinct by source text / history.",
+    "assumptions": ["hooks (build tag verif): VM.VerifSP, SymbolTable.VerifState, read-only"],
+}
+
 NOT_APPLICABLE = {}
 
 ENGINES = [
@@ -362,4 +388,4 @@ ENGINES = [
      "kind_free_text": "Go module with rapid v1.3.0: generators, mutators, reference models, recording platform; driven by /verif/check"},
 ]
 
-HOOK_COMMITS = []
+HOOK_COMMITS = ["764b122"]
